@@ -13,6 +13,8 @@ static const Pool &pool(hz::Ctx &ctx) { static Pool p = build_pool(ctx.seed, 2);
 
 #include <sys/stat.h>
 #include <unistd.h>
+#include <sys/wait.h>
+#include <fcntl.h>
 static std::string hist_tmp(const char *name) { static std::string d; if (d.empty()) { const char *root = getenv("VERIF_ROOT"); std::string rb = std::string(root ? root : "/verif") + "/build"; mkdir(rb.c_str(), 0755); d = rb + "/tmp"; mkdir(d.c_str(), 0755); d += "/h" + std::to_string(getpid()); mkdir(d.c_str(), 0755); } return d + "/" + name; }
 static bool hist_write(const std::string &p, const std::string &data) { FILE *f = fopen(p.c_str(), "wb"); if (!f) return false; bool ok = data.empty() || fwrite(data.data(), 1, data.size(), f) == data.size(); fclose(f); return ok; }
 static std::string hexv(const std::vector<uint8_t> &v, size_t max = 48) { return x86::hex(v.data(), std::min(v.size(), max)) + (v.size() > max ? " ..." : ""); }
@@ -698,8 +700,44 @@ static rc::Gen<HCmd> gen_hcmd(bool final_only) {
 }
 void showValue(const HCmd &h, std::ostream &os) { os << "{" << h.kind << "," << h.a << "," << h.b << "," << h.c << "}"; }
 
+// ----- C15P: what a line gives the very first time a process uses the library against what it gives later in the same process (after lines of
+// every failing and succeeding kind on other instances).  The body runs in a freshly exec'ed process (the engine's replay subcommand); the check
+// spawns it.  State that is neither in the instance nor in the options - a "reported once" flag, a cache, lazily built tables - shows here.
+static const char *PROBES15[] = {"call short 0x1234", "jmp short 300", "jne short -0x1000", "xbegin short 70000", "jrcxz 1000", "foo rax", "mov rax, [rbx", "add rax, zzz", "mov rax, rbx, rcx, rdx, rsi", "mov rax, [rbx*3]", "push [rsp+rsp*2]", "mov rax, 5, 6",
+  "mov rax, 0x00000000000000000000000000000000000000000000000000000000000000000000000000000000000000000000000000000000000000005", "mov \xff" "ax, 1", "vpaddq ymm1, ymm2", "jmp far rax",
+  "xend", "vpaddq ymm1, ymm2, ymm3", "mov rax, 0x7fffffff", "lea r15, [2*rax]", "jmp short -5", "call 0x1234", "nop11", "add qword [r8d+r9d*8+0x12345678], 0x12345678", "mov rax, 0x000000007fffffff", "lea r15, [rax+rsp]"};
+static const int NPROBES15 = (int)(sizeof PROBES15 / sizeof PROBES15[0]);
+static std::pair<int, std::vector<uint8_t>> raw15(const std::string &line, int combo) {
+  std::vector<uint8_t> buf(256, 0xcc); assemblyline_t a = asm_create_instance(buf.data(), 256); spec::Opts o = combo_opts(combo);
+  asm_mov_imm(a, (enum asm_opt)o.mov); asm_sib_index_base_swap(a, (enum asm_opt)o.swap); asm_sib_no_base(a, (enum asm_opt)o.nobase);
+  int rc = asm_assemble_str(a, line.c_str()); int off = asm_get_offset(a); asm_destroy_instance(a);
+  return {rc, rc == 0 && off >= 0 && off <= 256 ? std::vector<uint8_t>(buf.begin(), buf.begin() + off) : std::vector<uint8_t>()};
+}
+static int c15p_body(int probe, int combo) {
+  std::string line = PROBES15[probe % NPROBES15];
+  auto r1 = raw15(line, combo);                                   // the first use of the library in this process
+  for (int k = 0; k < NPROBES15; k++) if (k != probe % NPROBES15) raw15(PROBES15[k], (combo + k) % 12);
+  { assemblyline_t b = asm_create_instance(nullptr, 0); if (b) { asm_assemble_str(b, "mov rax, rbx\nret\n"); asm_destroy_instance(b); } }
+  auto r2 = raw15(line, combo); auto r3 = raw15(line, combo);
+  printf("\"%s\" [%s]: first use rc=%d %s ; later rc=%d %s ; again rc=%d %s\n", hz::jesc(line).c_str(), combo_name(combo).c_str(), r1.first, x86::hex(r1.second.data(), r1.second.size()).c_str(), r2.first, x86::hex(r2.second.data(), r2.second.size()).c_str(), r3.first, x86::hex(r3.second.data(), r3.second.size()).c_str());
+  return (r1 == r2 && r2 == r3) ? 0 : 1;
+}
+static int spawn_self_replay(const std::string &prop, const std::string &id) {
+  char exe[4096]; ssize_t n = readlink("/proc/self/exe", exe, sizeof exe - 1); if (n <= 0) return -1; exe[n] = 0; fflush(nullptr);
+  pid_t p = fork(); if (p == 0) { int nul = open("/dev/null", O_WRONLY); if (nul >= 0) { dup2(nul, 1); dup2(nul, 2); } execl(exe, exe, "replay", prop.c_str(), id.c_str(), (char *)nullptr); _exit(127); }
+  int st = 0; if (p < 0 || waitpid(p, &st, 0) < 0) return -1; return WIFEXITED(st) ? WEXITSTATUS(st) : -1;
+}
+
 void prop_c15(hz::Ctx &ctx) {
   const Pool &P = pool(ctx);
+  for (int pr = 0; pr < NPROBES15; pr++) for (int cv = 0; cv < (ctx.thorough() ? 4 : 2); cv++) {
+    if (!ctx.take()) continue; int combo = cv == 0 ? DEFAULT_COMBO : (int)((pr * 5 + cv * 7 + ctx.seed) % 12);
+    std::string id = "C15P|" + std::to_string(pr) + "|" + std::to_string(combo); if (!ctx.begin(id, std::string("first use in a fresh process: ") + hz::jesc(PROBES15[pr]))) continue;
+    ctx.cls("part:first-use-in-a-fresh-process"); ctx.nontrivial(id);
+    int rc = spawn_self_replay("C15", id);
+    if (ctx.want_sample()) ctx.put_sample(std::string("fresh process: \"") + hz::jesc(PROBES15[pr]) + "\" first, after " + std::to_string(NPROBES15 - 1) + " other lines, and again -> " + (rc == 0 ? "same result every time" : rc == 1 ? "DIFFERENT" : "could not run"));
+    if (rc == 1) { hz::Failure f; f.caseid = id; f.text = std::string("in a fresh process: \"") + hz::jesc(PROBES15[pr]) + "\" as the first line the process assembles, then after other (failing and succeeding) lines on other instances"; f.symptom = "process-history"; f.detail = "the line's result the first time differs from its result later in the same process (run the replay for the bytes)"; f.tags = {"mn:history", "form:process", "sym:process-history"}; ctx.fail(f); }
+  }
   auto run = [&](const C15Case &c, const std::string &part, bool viarc) {
     std::string id = ser15(c); if (!ctx.begin(id, text15(P, c).substr(0, 400))) return;
     ctx.cls(part);
@@ -729,6 +767,7 @@ void prop_c15(hz::Ctx &ctx) {
 
 // ===================================================================== replay
 int replay_hist(const std::string &prop, const std::string &caseid, uint64_t seed) {
+  if (caseid.compare(0, 5, "C15P|") == 0) { auto f = split(caseid, '|'); if (f.size() != 3) return 2; int rc = c15p_body(atoi(f[1].c_str()), atoi(f[2].c_str())); printf(rc ? "FAIL\n" : "OK\n"); return rc; }
   hz::Ctx ctx; ctx.seed = seed;
   if (caseid.compare(0, 5, "C06L|") == 0) {
     auto f = split(caseid, '|'); if (f.size() != 6) return 2; int combo = atoi(f[1].c_str()), nlines = atoi(f[2].c_str()), ncalls = atoi(f[3].c_str()); uint64_t ls = strtoull(f[4].c_str(), nullptr, 10); ctx.seed = strtoull(f[5].c_str(), nullptr, 10);
